@@ -21,6 +21,9 @@ type omap struct {
 	idx     map[value]*mentry // concrete basic/pointer keys only
 	nsym    int               // number of live entries whose key is not in idx
 	n       int
+	// iteration order chosen for this map in the current all-orders epoch (see vMapOrder)
+	ordEpoch int
+	ord      []int
 }
 
 func makeMap(kt types.Type) value {
@@ -195,9 +198,17 @@ func (m *omap) rangeIter(i *interpreter) iter {
 		if len(live) > 4 {
 			i.abort("cut", fmt.Sprintf("all-orders iteration over a map with %d entries", len(live)))
 		}
-		ps := permTable[len(live)]
-		p := ps[i.choose(len(ps))]
-		i.ctx.mapOrders = append(i.ctx.mapOrders, len(live))
+		// one order per map object and epoch: every range over the same map within one epoch sees the same order
+		// (a new epoch starts at each vMapOrder(true)); the order itself is a free choice
+		var p []int
+		if m.ordEpoch == i.ctx.mapEpoch && len(m.ord) == len(live) {
+			p = m.ord
+		} else {
+			ps := permTable[len(live)]
+			p = ps[i.choose(len(ps))]
+			i.ctx.mapOrders = append(i.ctx.mapOrders, len(live))
+			m.ordEpoch, m.ord = i.ctx.mapEpoch, p
+		}
 		ord := make([]*mentry, len(live))
 		for k, j := range p {
 			ord[k] = live[j]
